@@ -1,6 +1,6 @@
 (** C15 — correspondence (model output = implementation output) and the spec-side predicate evaluated on
     the implementation's outputs. *)
-From V Require Import Base.Util Gql.Ast Writer.Wop C15.Model C15.Spec C15.Reify C15.CheckRespects.
+From V Require Import Base.Util Gql.Ast Writer.Wop C15.Model C15.Spec C15.Reify C15.CheckRespects C15.EmitSim C15.EmitIface C15.EmitDen.
 
 Inductive case :=
 (** schema_from_introspection_json on the text of [j] *)
@@ -228,6 +228,21 @@ Definition listed_in (order : list nat) (l : list mtype) : list mtype :=
   | _ => flat_map (fun i => match nth_error l i with Some t => [t] | None => [] end) order
   end.
 
+(** the computable guards of C15_alias_denotations_agree / C15_emit_respects_equiv_interface, for a scalar configuration that maps
+    every scalar the generators use (which TypeScript text is immaterial for the guards) *)
+Definition guard_opts : V.C10.Model.sopts :=
+  V.C10.Model.mkSOpts (map (fun n => (n, V.C10.Model.ScSingle (s "string")))
+                         [s "Int"; s "Float"; s "String"; s "Boolean"; s "ID"; s "Date"; s "JSON"; s "Url"])
+                      (s "__nitrogql_schema") true false.
+Definition decls_ok (D : tsdoc) : bool :=
+  match V.C10.Model.schema_decls guard_opts D with V.C10.Model.Ok _ => true | _ => false end.
+Definition emit_guard_b (meta : bool) (M : smodel) (D : tsdoc) (sj : schema) : bool :=
+  let DA := type_system_to_ast sj in
+  doc_emit_closed_b (vis_of M) DA && objects_outside_b (vis_of M) DA && objects_outside_b (vis_of M) D
+  && V.C10.Spec.wf_schema guard_opts D && decls_ok D
+  (* an introspection result that lists the introspection types is outside C10's wf_schema (names starting with `__`) *)
+  && (meta || (V.C10.Spec.wf_schema guard_opts DA && decls_ok DA)).
+
 Definition is_nil_err (l : list V.C03.Model.err) : bool := match l with [] => true | _ => false end.
 
 Definition agree (c : case) : bool :=
@@ -242,7 +257,7 @@ Definition agree (c : case) : bool :=
        && json_eqb (introspect_of st (listed_in order (listed_types meta M)) M) J && doc_equiv_b D (sdl_doc M) && parsed_positions_b D
        && Bool.eqb (model_ok M) guard
        (* the computable guard of C15_check_respects_equiv on the two schema documents *)
-       && match out_json with Ok sj => sim_guard_b (vis_of M) D (doc_of_schema sj) | Err _ => true end
+       && match out_json with Ok sj => sim_guard_b (vis_of M) D (doc_of_schema sj) && emit_guard_b meta M D sj | Err _ => true end
        (* C03's checker model reproduces the real checker's verdicts: on the SDL document, and on the reification of the
           Schema the JSON route built (the checker is generic in the Schema; this ties the model to it on that route too) *)
        && forallb (fun d => match d with
